@@ -2,6 +2,7 @@
 from mc.props import _cellprop
 from mc.props import _masterprop
 from mc.worlds import cellcfg, cellmon, mastercfg, mastermon
+from mc.worlds.cellcfg import T1
 
 BUDGET = {'quick': 600, 'thorough': 2400}
 DAY = 24 * 3600
@@ -12,9 +13,12 @@ def _k2():
     cfg['monitors'] = [cellmon.mon_c03]
     cfg['templates']['once'] = {'prio': 50, 'demand': [2, 2, 2], 'aff': 'o',
                                 'alloc': 'a', 'once': True}
+    # the same allocation name in the other partition
+    cfg['allocs']['a2'] = {'partition': 'p2', 'path': 'a', 'variants': [
+        {'rank': 100, 'traits': T1}]}
     cfg['events'] = cellcfg.ev(
         ('add', 'pl'), ('add', 't1'), ('add', 'p2'), ('add', 't2'),
-        ('add', 'hi'), ('add', 'once'), ('move', 2, 'b'),
+        ('add', 'hi'), ('add', 'once'), ('move', 2, 'b'), ('move', 0, 'a2'),
         ('rm', 0), ('prio', 0, 100), ('move', 0, 'b'), ('move', 1, 'b'),
         ('move', 0, 'a'),
         ('down', 's0'), ('up', 's0'), ('frz', 's1', -1), ('up', 's1'),
@@ -51,7 +55,7 @@ def _m2():
         ('app+', 'pl'), ('app+', 't1'), ('app+', 'tx'), ('app+', 'hi'),
         ('app+', 'once'),
         ('app-', 0),
-        ('alloc', 1), ('alloc', 2), ('alloc', 0),
+        ('alloc', 1), ('alloc', 2), ('alloc', 3), ('alloc', 0),
         ('srv', 's0', 1), ('srv', 's0', 2), ('srv', 's0', 0),
         ('srv', 's1', 1), ('srv', 's1', 0),
         ('pres-', 's0'), ('pres+', 's0', 1), ('pres+', 's0', 0),
@@ -67,12 +71,35 @@ def _m2t():
     survive every later allocations / servers event."""
     cfg = _m2()
     cfg['traits'] = ['t2']
+    # s0's record introduces two unlisted traits at once, s1 offers only the
+    # second of them
+    cfg['servers']['s0']['variants'][0]['traits'] = ['u1', 'u2']
+    cfg['servers']['s1']['variants'][0]['traits'] = ['t1', 'u2']
+    cfg['templates']['u1'] = {'memory': '3M', 'cpu': '3%', 'disk': '3M',
+                              'affinity': 'u', 'traits': ['u1']}
     cfg['events'] = mastercfg.ev(
-        ('app+', 'pl'), ('app+', 't1'), ('app-', 0),
+        ('app+', 'pl'), ('app+', 't1'), ('app+', 'u1'), ('app-', 0),
+        ('pres-', 's0'),
         ('alloc', 1), ('alloc', 2), ('alloc', 0),
         ('srv', 's0', 1), ('srv', 's0', 2), ('srv', 's0', 0),
         ('srv', 's1', 1), ('srv', 's1', 0),
         ('noop',), ('restart',),
+    )
+    return cfg
+
+
+def _m2f():
+    """A frozen server loses its presence, its node comes back with a
+    record that no longer offers the trait, and it is unfrozen."""
+    cfg = mastercfg.m2()
+    cfg['cellmonitors'] = [cellmon.mon_c03]
+    cfg['monitors'] = [mastermon.mon_c03_zk]
+    cfg['allow_nocycle'] = False
+    cfg['events'] = mastercfg.ev(
+        ('app+', 't1'),
+        ('state', 's1', 'frozen', -1), ('state', 's1', 'up', -1),
+        ('pres-', 's1'), ('pres+', 's1', 1), ('pres+', 's1', 0),
+        ('noop',),
     )
     return cfg
 
@@ -98,10 +125,12 @@ def configs(ctx):
         return [('K2', _k2(), 4, 1), ('K5', _k5(), 5, 0),
                 ('M2', _m2(), 3, 0, _masterprop.MasterSpec),
                 ('M2t', _m2t(), 3, 0, _masterprop.MasterSpec),
+                ('M2f', _m2f(), 5, 0, _masterprop.MasterSpec),
                 ('M2-late', _late(), 4, 2, _masterprop.MasterSpec)]
     return [('K2', _k2(), 6, 1), ('K5', _k5(), 7, 0),
             ('M2', _m2(), 5, 1, _masterprop.MasterSpec),
             ('M2t', _m2t(), 5, 1, _masterprop.MasterSpec),
+            ('M2f', _m2f(), 7, 1, _masterprop.MasterSpec),
             ('M2-late', _late(), 6, 2, _masterprop.MasterSpec)]
 
 
